@@ -79,7 +79,18 @@ pub fn run_plan(scn: &dyn Scenario, plan: &Value, ctx: &mut Ctx) -> Result<(), S
     let r = panics::catch(|| scn.exec(plan, ctx));
     crate::hooks::clear_after_run();
     match r {
-        Ok(()) => Ok(()),
+        Ok(()) => {
+            // a panic inside a spawned task is swallowed by the runtime; the hook still saw it
+            if let Some(c) = panics::take_last() {
+                if panics::in_real_code(&c) {
+                    let p = scn.panic_property();
+                    ctx.violate(p, "panic", &c.discriminator(), format!("{} (inside a server/client task)", c.describe()));
+                } else {
+                    return Err(c.describe());
+                }
+            }
+            Ok(())
+        }
         Err(c) => {
             if panics::in_real_code(&c) {
                 let p = scn.panic_property();
